@@ -796,7 +796,36 @@ def r12_6(ctx, prog, crate):
             ctx.check(cs == [want.get(nm)], "R12.6", ["from_benches", nm, "components"], "a %s entry is inserted under %s, expected %s" % (nm, cs, want.get(nm)), fb.where(tgt))
 
 
+def r12_7(ctx, prog, crate):
+    """A `types = [...]` benchmark is found under the display name of its type: EntryType::display_name drops the module
+    components *in front of* the type - everything from the first `<` on (the generic arguments, with their own paths) is part
+    of the name. The generic boundary is therefore looked for from the left; a reverse search for `<` stops at the innermost
+    argument list and names `Vec<Option<u8>>` `Option<u8>>`, which also merges distinct types that share an inner argument."""
+    b = prog.body("entry::generic::EntryType::display_name", crate)
+    if not ctx.anchor("R12.7", "EntryType::display_name", 1 if b else 0, 1):
+        return
+    ctx.saw(b)
+    fwd = 0
+    for c in b.live_calls():
+        last = c.callee.rsplit("::", 1)[-1]
+        if not c.callee.startswith(("core::str::", "std::str::", "core::slice::", "std::string::String::")):
+            continue
+        pat = [a for a in c.args[1:] if a.get("k") == "const" and "'<'" in a["c"]["d"] or a.get("k") == "const" and a["c"]["d"] in ('"<"',)]
+        if not pat:
+            continue
+        rev = last.startswith("r") and last in ("rfind", "rsplit", "rsplit_once", "rsplitn", "rmatches", "rmatch_indices", "rsplit_terminator", "rposition")
+        if not rev:
+            fwd += 1
+        ctx.check(not rev, "R12.7", ["display_name", "generic-boundary-found-from-the-left", last],
+                  "EntryType::display_name looks for `<` with %s (from the right): for a nested generic type the name starts at the "
+                  "innermost argument list" % last, c.line())
+    ctx.check(fwd >= 1, "R12.7", ["display_name", "generic-boundary-respected"],
+              "EntryType::display_name never looks for the generic boundary `<`: module components inside the generic arguments would be "
+              "taken for the type's own path", b.where(0))
+
+
 def run(ctx, prog, crate):
+    r12_7(ctx, prog, crate)
     r12_6(ctx, prog, crate)
     r12_4(ctx, prog, crate)
     r12_5(ctx, prog, crate)
